@@ -148,6 +148,13 @@ void PositiveVisitor::bvisit(const Add &x)
     auto coef = x.get_coef();
     auto dict = x.get_dict();
 
+    if (coef->is_complex()) {
+        // A non-real constant term: the sum can only be positive if the
+        // imaginary parts of the other terms cancel it
+        is_positive_ = tribool::indeterminate;
+        return;
+    }
+
     bool can_be_true = true;
     bool can_be_false = true;
     if (coef->is_positive()) {
